@@ -197,6 +197,15 @@ func c15Crash(kind string) {
 				}
 				emit("c15", "DIRS", joinHex(phantom), hs(fmt.Sprintf("%s after %s: common prefixes without a key %q (keys %q)", kind, label, phantom, keys)))
 			}
+			if cc.name == "create-bucket" {
+				// a bucket whose creation was cut short exists or does not; either way it can be (re)created and used
+				s.MkBucket("bkb")
+				s.Put("bkb", "first/object", []byte("into the new bucket"), mB)
+				s.Get("bkb", "first/object", "")
+				s.List(ListReq{Bucket: "bkb", MaxKeys: -1})
+				s.Delete("bkb", "first/object")
+				s.RmBucket("bkb")
+			}
 			// and it keeps working: the key can be written and read again
 			s.Put(b, "a/b", []byte("after"), mA)
 			s.Get(b, "a/b", "")
